@@ -161,7 +161,8 @@ Proof.
     assert (Hft : forall fuel i j k fa io0 s1, procs (fst (fst (feed_tasks fuel i j k fa io0 s1))) = procs s1).
     { induction fuel as [|f IH]; intros; cbn [feed_tasks]; [reflexivity|].
       destruct (okey_eqb (Some k) fa); [|apply IH]. destruct io0; [reflexivity|].
-      rewrite IH. destruct (cached s1 j); reflexivity. }
+      rewrite IH. destruct (cached s1 j) as [x|]; [|reflexivity].
+      destruct (kind x); try reflexivity. destruct (ready x); reflexivity. }
     assert (Hfs : forall fs k fa io0 s1, procs (fst (fst (do_feeds fs k fa io0 s1))) = procs s1).
     { induction fs as [|[[j n] sl] r IH]; intros; cbn [do_feeds]; [reflexivity|].
       pose proof (Hft (Z.to_nat n) 0 j k fa io0 s1) as H0.
@@ -208,6 +209,11 @@ Proof.
     destruct (items x); [destruct (okey_eqb _ _)|]; reflexivity.
   - unfold do_join_shutdown. destruct (wlist _); cbn [fst]; [reflexivity|].
     unfold join_exited. destruct (filter _ (rev _)); reflexivity.
+  - unfold do_apply_q, do_apply.
+    destruct (negb (pstate (with_sigs s []) =? 0)); [reflexivity|].
+    destruct ((match slot with Some b => b | None => putlocks (with_sigs s []) end) && (LaxSem.value (sem (with_sigs s [])) =? 0)); [reflexivity|]. cbn [fst].
+    destruct (match slot with Some b => b | None => putlocks (with_sigs s []) end); reflexivity.
+  - unfold do_apply_unsendable. destruct (negb (pstate _ =? 0)); [reflexivity|]. destruct (_ && _); reflexivity.
 Qed.
 
 (* ------------------------------------------------------------ C11 at pool level *)
@@ -282,6 +288,39 @@ Qed.
 
 (* C10 at pool level: in every reachable state of the pool model the slot semaphore
    satisfies 0 <= value <= bound + pending with pending >= 0 *)
+(* the task handler touches the slot semaphore only by releasing (the slot of an apply task that
+   could not be sent), and never the pool size *)
+Lemma feed_preserves (P : LaxSem.sem -> Z -> Prop) :
+  (forall x n, P x n -> P (LaxSem.release x) n) ->
+  forall s fa io, P (sem s) (nprocs s) ->
+                  P (sem (fst (do_feed s fa io))) (nprocs (fst (do_feed s fa io))).
+Proof.
+  intros Hrel.
+  assert (Hft : forall fuel i j k fa io0 s1, P (sem s1) (nprocs s1) ->
+            P (sem (fst (fst (feed_tasks fuel i j k fa io0 s1)))) (nprocs (fst (fst (feed_tasks fuel i j k fa io0 s1))))).
+  { induction fuel as [|f IH]; intros i j k fa io0 s1 H1; cbn [feed_tasks]; [exact H1|].
+    destruct (okey_eqb (Some k) fa); [|apply IH; exact H1]. destruct io0; [exact H1|].
+    apply IH. destruct (cached s1 j) as [x|]; [|exact H1].
+    destruct (kind x); try exact H1.
+    change (P (sem (if ready x then s1 else with_sem s1 (LaxSem.release (sem s1))))
+              (nprocs (if ready x then s1 else with_sem s1 (LaxSem.release (sem s1))))).
+    destruct (ready x); [exact H1|]. cbn [sem nprocs with_sem]. apply Hrel. exact H1. }
+  assert (Hfs : forall fs k fa io0 s1, P (sem s1) (nprocs s1) ->
+            P (sem (fst (fst (do_feeds fs k fa io0 s1)))) (nprocs (fst (fst (do_feeds fs k fa io0 s1))))).
+  { induction fs as [|[[j n] sl] r IH]; intros k fa io0 s1 H1; cbn [do_feeds]; [exact H1|].
+    pose proof (Hft (Z.to_nat n) 0 j k fa io0 s1 H1) as H2.
+    destruct (feed_tasks (Z.to_nat n) 0 j k fa io0 s1) as [[s2 k2] st]. cbn [fst] in H2.
+    destruct st; [exact H2|].
+    destruct sl.
+    - destruct (get_job s2 j) as [x|].
+      + destruct (snd (set_length x n)); cbn [fst]; [exact H2|]. apply IH. exact H2.
+      + apply IH. exact H2.
+    - apply IH. exact H2. }
+  intros s fa io H0. unfold do_feed.
+  pose proof (Hfs (feeds s) 0 fa io s H0) as H1.
+  destruct (do_feeds (feeds s) 0 fa io s) as [[s1 rest] r]. cbn [fst] in *. exact H1.
+Qed.
+
 Lemma sem_join_exited s0 : sem (fst (join_exited s0)) = sem s0.
 Proof. unfold join_exited. destruct (filter _ (rev _)); reflexivity. Qed.
 
@@ -334,26 +373,7 @@ Proof.
   - unfold do_map. destruct (negb (pstate (with_sigs s []) =? 0)); exact H.
   - unfold do_imap. destruct (negb (pstate (with_sigs s []) =? 0)); exact H.
   - unfold do_imap. destruct (negb (pstate (with_sigs s []) =? 0)); exact H.
-  - change (SInv (sem (fst (do_feed (with_sigs s []) fail_at io)))).
-    assert (H0 : SInv (sem (with_sigs s []))) by exact H. revert H0.
-    generalize (with_sigs s []). intros s0 H0. unfold do_feed.
-    assert (Hft : forall fuel i j k fa io0 s1, sem (fst (fst (feed_tasks fuel i j k fa io0 s1))) = sem s1).
-    { induction fuel as [|f IH]; intros; cbn [feed_tasks]; [reflexivity|].
-      destruct (okey_eqb (Some k) fa); [|apply IH]. destruct io0; [reflexivity|].
-      rewrite IH. destruct (cached s1 j); reflexivity. }
-    assert (Hfs : forall fs k fa io0 s1, sem (fst (fst (do_feeds fs k fa io0 s1))) = sem s1).
-    { induction fs as [|[[j n] sl] r IH]; intros; cbn [do_feeds]; [reflexivity|].
-      pose proof (Hft (Z.to_nat n) 0 j k fa io0 s1) as H1.
-      destruct (feed_tasks (Z.to_nat n) 0 j k fa io0 s1) as [[s2 k2] st]. cbn [fst] in H1.
-      destruct st; [exact H1|].
-      destruct sl.
-      - destruct (get_job s2 j) as [x|].
-        + destruct (snd (set_length x n)); cbn [fst]; [exact H1|]. rewrite IH. exact H1.
-        + rewrite IH. exact H1.
-      - rewrite IH. exact H1. }
-    pose proof (Hfs (feeds s0) 0 fail_at io s0) as H1.
-    destruct (do_feeds (feeds s0) 0 fail_at io s0) as [[s1 rest] r]. cbn [fst] in *.
-    change (sem (with_feeds s1 rest)) with (sem s1). rewrite H1. exact H0.
+  - apply (feed_preserves (fun x _ => SInv x) (fun x n Hx => sinv_step x Release Hx) (with_sigs s []) fail_at io). exact H.
   - unfold do_ack. destruct (cached _ j) as [x|]; [|exact H].
     destruct (kind x); try exact H. destruct i; exact H.
   - unfold do_ready. destruct (cached _ j) as [x|]; [|exact H]. cbn [fst].
@@ -387,6 +407,13 @@ Proof.
   - apply (sem_do_tick_close (with_sigs s [])). exact H.
   - unfold do_join_shutdown. destruct (wlist _); cbn [fst]; [exact H|].
     rewrite sem_join_exited. exact H.
+  - (* apply_async through the task handler: the slot accounting of apply_async *)
+    unfold do_apply_q, do_apply.
+    destruct (negb (pstate (with_sigs s []) =? 0)); [exact H|].
+    destruct ((match slot with Some b => b | None => putlocks (with_sigs s []) end) && (LaxSem.value (sem (with_sigs s [])) =? 0)); [exact H|]. cbn [fst].
+    destruct (match slot with Some b => b | None => putlocks (with_sigs s []) end); [|exact H].
+    cbn [sem add_job with_sem with_feeds]. apply sinv_step. exact H.
+  - unfold do_apply_unsendable. destruct (negb (pstate _ =? 0)); [exact H|]. destruct (_ && _); exact H.
 Qed.
 
 Lemma sem_init_ok c : 0 <= c_n c -> SInv (sem (init c)).
